@@ -529,9 +529,25 @@ def m_map_remove(it, st, args, info):
     vty = targs[-1] if targs else None
     if fr is not None and vty:
         for i, l in enumerate(fr.body['locals']):
-            if l['ty'] == vty:
+            if l['ty'] in (vty, '&' + vty, '&mut ' + vty) or (l['ty'].startswith("&'") and l['ty'].split(' ', 1)[-1].replace('mut ', '') == vty):
                 v = st.mem.get((fr.uid, i))
-                if v is not None and v[0] != 'undef': cands.append(strip_named(it.deref(st, v)))
+                if v is not None and v[0] != 'undef':
+                    c = strip_named(it.deref(st, v))
+                    if c[0] != 'undef' and c not in cands: cands.append(c)
+    if not cands and vty:
+        # the removal sits in a helper that only receives the key: look for the record of this namespace held anywhere on the call stack
+        def is_rec(v, d=0):
+            if not isinstance(v, tuple) or not v or d > 6: return False
+            if v[0] == 'adt': return v[1] == vty
+            if v[0] == 'upd': return is_rec(v[1], d + 1)
+            if v[0] == 'named': return is_rec(v[2], d + 1)
+            if v[0] == 'v': return isinstance(v[1], tuple) and v[1] and v[1][0] == 'sload' and v[1][1] == ns and v[2] == 'Ok' and (v[1][5][-1] == vty if len(v[1]) > 5 and v[1][5] else False)
+            return False
+        for k_ in sorted(st.mem, key=repr):
+            v = st.mem[k_]
+            if is_rec(v):
+                c = strip_named(v)
+                if c not in cands: cands.append(c)
     eff(st, ('remove', ns, key, ('tup', tuple(cands)), None, info['site']))
     return UNIT
 def m_map_update(it, st, args, info):
